@@ -13,7 +13,7 @@ SEEDED = "/verif/seeded"
 
 
 def sh(cmd, **kw):
-    return subprocess.run(cmd, shell=True, capture_output=True, text=True, **kw)
+    return subprocess.run(cmd, shell=True, capture_output=True, text=True, errors='replace', **kw)
 
 
 def ensure_wt():
